@@ -57,7 +57,7 @@ theorem elementFromNat_eq {P : Params} {a e : Nat} (h : Nat'.elementFromNat P a 
     · cases h
     · exact (Option.some.inj h).symm
 
-theorem expFromNat_eq_some_iff {P : Params} {x e : Nat} :
+theorem expFromNat_eq_some_iff_cw {P : Params} {x e : Nat} :
     Nat'.expFromNat P x = some e ↔ e = x ∧ x < P.q := by
   unfold Nat'.expFromNat
   split
@@ -110,10 +110,10 @@ theorem natCodecX_lawful (P : Params) (fl : Flavour) :
   refine Codec.refine_lawful bytesVec_lawful ?_ ?_
   · rintro x ⟨hx, hl⟩
     refine ⟨hl, ?_⟩
-    rw [expFromBytes, natOfBytes_natToBytes, expFromNat_eq_some_iff]
+    rw [expFromBytes, natOfBytes_natToBytes, expFromNat_eq_some_iff_cw]
     exact ⟨rfl, hx⟩
   · intro b x hb hf
-    rw [expFromBytes, expFromNat_eq_some_iff] at hf
+    rw [expFromBytes, expFromNat_eq_some_iff_cw] at hf
     obtain ⟨rfl, hq⟩ := hf
     exact ⟨hq, natToBytes_natOfBytes_length_lt fl b hb⟩
 
